@@ -31,8 +31,8 @@ func init() {
 				n = 60000
 			}
 			return fw.Meta{N: n, Level: "exploration", Chunk: 50, CaseTimeoutS: 120, MinNT: 300,
-				Rule: "seeded writer programs (Write/WriteSync/Seek back to an earlier record boundary/Close) over nil, empty, random, compressible and marker-laden records with sizes around buffer, page and 4 KiB-window boundaries x 4 compression types x write buffers {8,13,64,4096,64Ki,default} x buffered/direct-I/O writer; then (a) sequential reader programs mixing ReadNext and SkipNext with read buffers {1,3,16,37,4096,64Ki}, (b) ReadNextAt at every returned offset, (c) SeekNext from every byte offset 0..size (files <= 8 KiB; record starts +-2 and window boundaries beyond). Non-trivial: >=3 surviving records incl. a nil or marker-ending one and >=1 skip; distinct by hash of program+config. Payloads embedding a complete valid record image are not generated (format cannot distinguish them)",
-				MinObs: map[string]int64{"seeknext_offsets_checked": 100000, "skips_checked": 1000, "nil_records_skipped": 50, "seek_back_programs": 100, "readat_checked": 5000, "directio_files": 10, "records_ending_in_marker_prefix": 200},
+				Rule:        "seeded writer programs (Write/WriteSync/Seek back to an earlier record boundary/Close) over nil, empty, random, compressible and marker-laden records with sizes around buffer, page and 4 KiB-window boundaries x 4 compression types x write buffers {8,13,64,4096,64Ki,default} x buffered/direct-I/O writer; then (a) sequential reader programs mixing ReadNext and SkipNext with read buffers {1,3,16,37,4096,64Ki}, (b) ReadNextAt at every returned offset, (c) SeekNext from every byte offset 0..size (files <= 8 KiB; record starts +-2 and window boundaries beyond). Non-trivial: >=3 surviving records incl. a nil or marker-ending one and >=1 skip; distinct by hash of program+config. Payloads embedding a complete valid record image are not generated (format cannot distinguish them)",
+				MinObs:      map[string]int64{"seeknext_offsets_checked": 100000, "skips_checked": 1000, "nil_records_skipped": 50, "seek_back_programs": 100, "readat_checked": 5000, "directio_files": 10, "records_ending_in_marker_prefix": 200},
 				Assumptions: []string{"direct-I/O writer is used without Seek/WriteSync (documented limitation) and with block-multiple buffers", "direct-I/O reader factory is exercised with ReadNext-only programs"},
 			}
 		},
